@@ -355,7 +355,9 @@ package components
 //@ define fcombOutsOK(p *FileCombinator) bool = p.outPorts != nil && (forall k string :: k in p.outPorts ==> p.outPorts[k] != nil && wfOutPort(p.outPorts[k]))
 //@ func (*FileCombinator).Run$1()
 //@   props C19
-//@   requires wf: fcombOutsOK(p) && pName in p.outPorts && (forall j int :: 0 <= j && j < len(ips) ==> validIP(ips[j]))
+//@   requires wf: fcombOutsOK(p)
+//@   requires port-of-that-name: pName in p.outPorts
+//@   requires items-valid: forall j int :: 0 <= j && j < len(ips) ==> validIP(ips[j])
 //@   modifies *
 //@   ensures sends-its-row-in-order-on-the-port-of-its-name[C19]: outN[old(p.outPorts[pName])] == old(outN[p.outPorts[pName]]) + len(old(ips)) && (forall j int :: 0 <= j && j < len(old(ips)) ==> outAt[old(p.outPorts[pName])][old(outN[p.outPorts[pName]]) + j] == old(ips)[j])
 //@   loop 0 invariant range: 0 <= $i && $i <= len(ips)
